@@ -689,7 +689,13 @@ def one_transect(obs, rng, env, line, cls, spec):
         return
     for name in env['tvars']:
         var = model.variables[name]
-        out = obs.call('prepare_data_array_for_transect', transect.prepare_data_array_for_transect, ds[name])
+        plotted = ds[name]
+        if chance(rng, 0.3):
+            # a variable with a direction of its own (vertical velocity, layer height): its `positive` attribute says which
+            # way ITS values point and has nothing to do with the way the depth axis is drawn
+            plotted = plotted.assign_attrs(positive=pick(rng, ['up', 'down']))
+            obs.cls('prepared-variable-with-its-own-positive-attribute')
+        out = obs.call('prepare_data_array_for_transect', transect.prepare_data_array_for_transect, plotted)
         if isinstance(out, Failed):
             continue
         obs.cls('prepared-variable')
